@@ -643,6 +643,11 @@ func Bubble(t TestingT, s *Sim, body func()) (panicked interface{}) {
 	// The bubble gets a sub-test of its own: when the race detector reported
 	// during the bubble, synctest.Test calls FailNow on the T it was given,
 	// which must not end the worker's loop over seeds.
+	// Whatever the library keeps in a sync.Pool was created outside this bubble
+	// (reference runs, table building, an earlier run's bubble) and cannot be
+	// used inside it: two collections empty every pool (primary and victim).
+	runtime.GC()
+	runtime.GC()
 	t.Run("b", func(st TestingT) {
 		defer func() {
 			cur.Store(nil)
@@ -657,5 +662,8 @@ func Bubble(t TestingT, s *Sim, body func()) (panicked interface{}) {
 			cur.Store(nil)
 		})
 	})
+	// ... and what this bubble left in a pool cannot be used outside it
+	runtime.GC()
+	runtime.GC()
 	return panicked
 }
